@@ -21,8 +21,10 @@ CHECKS["C02"] = dict(
         "keywords.cpp on every run: parse(render_min t) = t and parse(render_full t) = t for every tree over the full operator set "
         "(unary, binary, assignment family, inline-if, indexing, field access, calls, builtin functions, quantifiers, rate; unbounded size), "
         "any redundant parentheses, alias / unary-plus / imply laws, exact-or-rejected integer literals, and equality (by decide) of the "
-        "generated table with a hand-written reference operator table. The model parser is compared with the real parser on every operator "
-        "pair/triple, random trees, mutated token strings and boundary literals; the reference table decides disagreements and yields the replay.",
+        "generated table with a hand-written reference operator table, and of the 61 builtin functions (name, node kind, arity) with a hand-written "
+        "reference list (utap_builtins_match_spec). The model parser is compared with the real parser on every operator "
+        "pair/triple, random trees, mutated token strings, boundary literals, calls of process sets (argument order) and every builtin name, all "
+        "in one process with rejected inputs (unterminated comment, string, bracket) interleaved; the reference table decides disagreements and yields the replay.",
    note="Trusted: Lean kernel, axioms propext/Quot.sound/Classical.choice, translate/exprgrammar.py, harness/c02.cpp, the reference table "
         "Spec/OperatorTable.lean (hand-written from the UPPAAL language reference). That bison's LALR automaton behaves as the "
         "operator-precedence model is validated by the correspondence, not proved. Double literals: nearest-double conversion is tested "
@@ -36,11 +38,12 @@ CHECKS["C03"] = dict(
         "the criterion's failures are enumerated from the tables as (parent, position, child) classes, each with a regenerated witness "
         "theorem proving the negation, and replayed on the library. Correspondence: real str() against the model's token stream, real "
         "parse/str/parse/equal/str on random accepted trees and all witnesses. Query forms (A[] E<> Pr E[] simulate control* minE/maxE "
-        "strategies) are exercised on the real library by the same oracle but are outside the Lean model (testing).",
+        "strategies) are exercised on the real library by the same oracle but are outside the Lean model (testing). String constants are modelled at "
+        "the text level (std::quoted on output, the lexer rule, std::quoted on input): C03_string_roundtrip for every non-empty value without a double quote.",
    note="Trusted: Lean kernel, axioms propext/Quot.sound/Classical.choice, translate/printer.py + exprgrammar.py, harness/c02.cpp, c03q.cpp. "
         "The theorem is about token streams; that lexing the printed text gives those tokens is checked per case, not proved. Literal "
-        "formatting (doubles, strings, -2147483648), the quantifier binder type text and all query syntax are not modelled: deviations there "
-        "are found by the differential oracle only (4 known findings listed in known_findings.d/C03.json; 3 defects repaired by fix: commits).",
+        "formatting of doubles and of -2147483648, the quantifier binder type text and all query syntax are not modelled: deviations there "
+        "are found by the differential oracle only (3 known findings listed in known_findings.d/C03.json; 5 defects repaired by fix: commits).",
    technique="Lean 4 print/parse round-trip theorem over tables translated from expression.cpp and parser.y + differential correspondence",
    design="4/C03")
 
@@ -106,9 +109,11 @@ add("C07",
     "latest preceding declaration): C07_binding, C07_innermost, C07_latest, C07_unknown, C07_bound_is_declared; the four machine operations "
     "are linked to the builder-model callbacks that perform them, and C07_grammar_frame_balanced (decide over the table regenerated from parser.y) "
     "shows every production pushes and pops frames in matched pairs. Correspondence: generated models (blocks, functions, parameters, select, "
-    "quantifiers, templates, shadowing) through the real parser with a TraceBuilder recording the symbol bound by every expr_identifier, and P.x queries.",
+    "quantifiers with parenthesised and unparenthesised bodies, nested brace-less iterations, typedef names shadowed by variables, edges with unresolvable "
+    "endpoints, templates, shadowing) through the real parser with a TraceBuilder recording the symbol bound by every expr_identifier; P.x queries for one- and "
+    "two-step instantiations; nested dynamic quantifiers with equal binder names.",
     T + "translate/c16_grammar.py, harness/c07.cpp, c08 TraceBuilder. Declarations are told apart by unique range types (decl_var passes no position). "
-    "Duplicate definitions (an error) are outside the property.",
+    "Duplicate definitions (an error) are outside the property. 3 defects repaired (chained P.x substitution, dynamic binder stack; see DESIGN 9.3).",
     "Lean 4 refinement theorem (scope machine = declarative binding) + trace correspondence")
 
 add("C08",
@@ -126,7 +131,8 @@ add("C09",
     "Lean 4 proof over lexer/keyword/grammar tables regenerated from lexer.l, keywords.cpp, parser.y: inserting or removing trivia (blanks, "
     "newlines, line and block comments) between tokens leaves the token stream unchanged (C09_trivia*); renaming an identifier injectively to a "
     "fresh identifier-shaped name outside the computed exception names commutes with lexing and with name resolution (C09_rename_*, "
-    "C09_scope_equivariant); keyword aliases (and/&&, or/||, not/!, :=/=) have identical grammar roles and callback traces (C09_alias_*); redundant "
+    "C09_scope_equivariant); keyword aliases (and/&&, or/||, not/!, :=/=) have identical grammar roles and callback traces (C09_alias_*) and occur in "
+    "exactly the same productions of the WHOLE grammar, query forms included (C09_alias_contexts over a table of every occurrence); redundant "
     "parentheses do not change the parse (C09_paren*, Pratt model shared with C02). Exception shapes have proved witnesses and are replayed. "
     "Correspondence/oracle: verdict and diagnostics of the real library on generated models and queries before/after each rewrite family.",
     T + "translate/c09_tables.py, harness/c09.cpp. The LALR automaton is represented by the operator-precedence model (validated in C02). Known findings: "
